@@ -251,3 +251,57 @@ func (a *Analyzer) renderSlice(s *Slice) string {
 	}
 	return fmt.Sprintf("bytes(%s@%s+%s)", baseName(b), a.renderLin(s.Off), a.renderLin(s.Len))
 }
+
+
+// LoopCarried reports whether t contains a value that was generalised at a loop head
+// (a location or variable whose content differs between iterations), i.e. depends on what
+// an earlier iteration left behind. Returns a description of the first such part.
+func LoopCarried(t Term) (string, bool) {
+	found := ""
+	var walk func(t Term)
+	lin := func(l Lin) {
+		for _, lt := range l.Ts {
+			if strings.HasPrefix(lt.A.Desc, "~") || strings.HasPrefix(lt.A.Desc, "len(~") {
+				found = lt.A.Desc
+			}
+		}
+	}
+	walk = func(t Term) {
+		if found != "" {
+			return
+		}
+		switch v := t.(type) {
+		case Int:
+			lin(v.L)
+		case *Slice:
+			if strings.HasPrefix(v.Base.Desc, "~") {
+				found = v.Base.Desc
+			}
+			lin(v.Len)
+		case *Unknown:
+			if strings.HasPrefix(v.Desc, "~") {
+				found = v.Desc
+			}
+		case *MapT:
+			if strings.HasPrefix(v.Obj.Desc, "~") {
+				found = v.Obj.Desc
+			}
+		case *Ptr:
+			if v.Obj != nil && strings.HasPrefix(v.Obj.Desc, "*~") {
+				found = v.Obj.Desc
+			}
+		case *Struct:
+			for _, f := range v.Fields {
+				walk(f)
+			}
+		case *Tuple:
+			for _, f := range v.Elems {
+				walk(f)
+			}
+		case *Iface:
+			walk(v.Val)
+		}
+	}
+	walk(t)
+	return found, found != ""
+}
